@@ -84,4 +84,69 @@ Proof.
   - destruct (eqbK _ zero); [reflexivity|]. apply IH. exists j. cbn [nth length] in *. repeat split; try assumption; lia.
 Qed.
 
+
+(* ---------------------------------------------------------------------------------------------- *)
+(* ndsplineeval_deriv: arbitrary derivative orders. Orders 0 and 1 use the routines above; orders >= 2 use the recursive
+   right-continuous bspline_deriv, which equals the derivative formula when the knots of that dimension are strictly
+   increasing and the point lies below the upper end of full support (where plain evaluation is right-continuous too). *)
+Definition strict_dim (d : @dimn A) : Prop :=
+  forall i j, 0 <= i -> i < j -> j < d_nknots d -> lt (d_kn d i) (d_kn d j).
+Definition derivk_ok (d : @dimn A) (x : K) (k : nat) : Prop :=
+  (k <= 1)%nat \/ (strict_dim d /\ lt x (d_kn d (d_naxes d))).
+
+Lemma dim_rel_derk (d : @dimn A) (x : K) (c : Z) (k : nat) :
+  wf_dim anyord d -> in_range d x -> center_post d x c -> eval_regular d x -> derivk_ok d x k ->
+  dim_rel d x k c (localbasis_derivk d x c k).
+Proof.
+  intros Hw Hr Hp Hreg Hok.
+  destruct k as [|[|k]]; [apply (dim_rel_val F); assumption | apply dim_rel_der; assumption |].
+  destruct Hok as [Hk|[Hstrict Hlt]]; [lia|].
+  destruct (lookup_walk_post F d x c Hw Hr Hp Hreg) as [Hmono [W1 [W2 [Hc W]]]].
+  assert (Es : side_of d x = true) by exact Hlt.
+  unfold dim_rel. cbv zeta. rewrite Es in *. split; [exact Hc|]. split.
+  - cbn [localbasis_derivk]. apply map_ext_in. intros i Hi. apply in_seq in Hi. rewrite (rnd_id F).
+    apply (bspline_deriv_dB F _ _ Hstrict x); lia.
+  - intros i Hi Hout. destruct W as [Hl0 [Hl1 [Hpc [Hcc Hrel]]]].
+    apply (dBk_support F _ _ Hmono true _ x Hl0 Hl1 Hpc); lia.
+Qed.
+
+Lemma localbases_derivk_rel : forall (ds : list (@dimn A)) xs cs ks,
+  length xs = length ds -> length cs = length ds -> length ks = length ds ->
+  Forall2 in_range ds xs -> Forall3 center_post ds xs cs -> Forall2 eval_regular ds xs ->
+  Forall (wf_dim anyord) ds -> Forall3 derivk_ok ds xs ks ->
+  all_rel ds xs ks cs (localbases_derivk ds xs cs ks).
+Proof.
+  induction ds as [|d ds IH]; intros xs cs ks Hx Hc Hk HR HP HE HW HO.
+  - destruct xs; [|discriminate]. destruct cs; [|discriminate]. destruct ks; [|discriminate]. constructor.
+  - destruct xs as [|x xs]; [discriminate|]. destruct cs as [|c cs]; [discriminate|]. destruct ks as [|k ks]; [discriminate|].
+    inversion HR; subst. inversion HP; subst. inversion HE; subst. inversion HW; subst. inversion HO; subst.
+    cbn [localbases_derivk]. constructor.
+    + apply dim_rel_derk; assumption.
+    + apply IH; try assumption; cbn [length] in *; lia.
+Qed.
+
+Theorem eval_deriv_is_tensor_sum (t : @table A) (xs : list K) (cs : list Z) (ks : list nat) :
+  dims t <> [] ->
+  Forall (wf_dim anyord) (dims t) ->
+  nth (ndim_of t - 1) (strides_of t) 0 = 1 ->
+  length xs = length (dims t) -> length ks = length (dims t) ->
+  searchcenters t xs = CFound cs ->
+  Forall2 eval_regular (dims t) xs ->
+  Forall3 derivk_ok (dims t) xs ks ->
+  ndsplineeval_deriv t xs cs ks = spline_spec t xs ks.
+Proof.
+  intros Hne Hwf Hs1 Hlen Hlk Hsc Hreg Hok.
+  assert (Hall : Forall anyord xs) by (apply Forall_forall; intros; exact I).
+  pose proof (sc_post anyord laws t xs Hwf Hall Hlen cs Hsc) as HP.
+  assert (HR : Forall2 in_range (dims t) xs).
+  { apply (sc_accepts_iff anyord laws t xs Hwf Hall Hlen). exists cs. exact Hsc. }
+  assert (Hcs : length cs = length (dims t)).
+  { clear - HP. induction HP; cbn [length]; lia. }
+  pose proof (localbases_derivk_rel (dims t) xs cs ks Hlen Hcs Hlk HR HP Hreg Hwf Hok) as AR.
+  destruct (all_rel_lengths _ _ _ _ _ AR) as [L1 L2].
+  unfold ndsplineeval_deriv, spline_spec.
+  rewrite (core_generic_block F); [| exact Hne | exact L1 | exact L2 | exact Hs1].
+  rewrite (tensor_block F (coef t) _ _ _ _ _ AR). reflexivity.
+Qed.
+
 End Assembly.
